@@ -249,7 +249,7 @@ class _:
     pure = staticmethod(lambda o, p: p.g_mtime)
 
 
-@contract(f"{IDX}.FastaIndex.check_for_index_files", properties=("C15", "C03", "C17"))
+@contract(f"{IDX}.FastaIndex.check_for_index_files", properties=("C15", "C03", "C17", "C04", "C06"))
 class _:
     # "Cache files that are missing or not strictly newer than the FASTA are rebuilt": accepted iff both exist
     # and both are strictly newer
